@@ -38,6 +38,7 @@ type PairOpts struct {
 	Seed            string
 	ExtraFuncs      map[string]model.Fn // additional host functions (same for both sides)
 	ExtraCmds       []string            // additional logging commands registered under these names
+	MapIdiomStore   bool                // the recording store answers unknown names with (&Value{}, false)
 }
 
 // NewPair creates both sides. loadErr/panicked report a failure of NewDialogueRunner.
@@ -91,6 +92,7 @@ func NewPair(prog *hast.Program, scripts []string, o PairOpts, garbage *core.Ran
 		st = p.Def
 	} else {
 		p.Rec = mon.NewRecStorer()
+		p.Rec.MapIdiom = o.MapIdiomStore
 		for k, v := range o.Pre {
 			p.Rec.HostSet(k, v)
 		}
